@@ -117,7 +117,9 @@ impl<F: Float, D: Dimension> LogisticRegressionValidParams<F, D> {
     /// or an array of 0s
     fn setup_init_params(&self, dims: D::Pattern) -> ArgminParam<F, D> {
         if let Some(params) = self.initial_params.as_ref() {
-            ArgminParam(params.clone())
+            // standard layout: the solver's sums run in memory order, so the result must not
+            // depend on how the caller laid the array out
+            ArgminParam(params.as_standard_layout().into_owned())
         } else {
             let mut dims = dims.into_dimension();
             dims.as_array_view_mut()[0] += self.fit_intercept as usize;
